@@ -651,6 +651,12 @@ VARIANTS["C13"] = [
     V("twin-keyword-table-call", "twin", WE, [(
         "        max_wf,\n        trough_offset,\n        spike_length_samples,\n        seed,\n    )", "        max_wf=max_wf,\n        trough_offset=trough_offset,\n        spike_length_samples=spike_length_samples,\n        seed=seed,\n    )")], (), ""),
     V("twin-trim-neq", "twin", WE, [("    wf_idx = wf_idx[wf_idx >= 0]\n", "    wf_idx = wf_idx[wf_idx != -1]\n")], (), ""),
+    V("template-plain-median", "fire", "src/ibldsp/waveform_extraction.py", [("        wfs_templates[i] = np.nanmedian(wfs[rec.first_index:rec.last_index + 1], axis=0)\n", "        wfs_templates[i] = np.median(wfs[rec.first_index:rec.last_index + 1], axis=0)\n")], ("D7",),
+      "only for a unit near a probe end whose spikes do not share one peak channel: NaN padding of one waveform poisons the template row"),
+    V("template-last-row-excluded", "fire", "src/ibldsp/waveform_extraction.py", [("        wfs_templates[i] = np.nanmedian(wfs[rec.first_index:rec.last_index + 1], axis=0)\n", "        wfs_templates[i] = np.nanmedian(wfs[rec.first_index:rec.last_index], axis=0)\n")], ("D7",),
+      "the unit's last waveform is left out of its template"),
+    V("template-axis-1", "fire", "src/ibldsp/waveform_extraction.py", [("        wfs_templates[i] = np.nanmedian(wfs[rec.first_index:rec.last_index + 1], axis=0)\n", "        wfs_templates[i] = np.nanmedian(wfs[rec.first_index:rec.last_index + 1], axis=1)\n")], ("D7",), ""),
+    V("twin-template-rows-named", "twin", "src/ibldsp/waveform_extraction.py", [("        wfs_templates[i] = np.nanmedian(wfs[rec.first_index:rec.last_index + 1], axis=0)\n", "        unit_wfs = wfs[rec.first_index:rec.last_index + 1]\n        wfs_templates[i] = np.nanmedian(unit_wfs, axis=0)\n")], (), ""),
 ]
 
 # ------------------------------------------------------------------------------------------------ C14
